@@ -12,6 +12,7 @@ import (
 var commands = map[string]func([]string) error{
 	"store":     cmdStore,
 	"crash":     cmdCrash,
+	"e2e":       cmdE2E,
 	"storeop":   cmdStoreOp,
 	"conc":      cmdConc,
 	"smtp":      cmdSMTP,
